@@ -322,6 +322,9 @@ func (g *gen) chspec(inClass bool) chs {
 		if inClass && g.r.Intn(12) == 0 {
 			c = '/' // raw slash inside a class: legal in a literal too
 		}
+		if inClass && g.r.Intn(10) == 0 {
+			c = '[' // an ordinary class member (classes do not nest); never followed by ':' (no ':' in the alphabet)
+		}
 		return chs{kind: "lit", c: c}
 	case 1:
 		return chs{kind: "idesc", c: Pick(g.r, []rune{'.', '*', '+', '?', '(', ')', '[', ']', '{', '}', '|', '^', '$', '\\', '/', '-'})}
@@ -675,7 +678,7 @@ func (g *gen) ops(r *node, global bool, s []rune) []opv {
 			}
 			ops = append(ops, opv{fmt.Sprintf("out.push(%s.replace(r,%s)); li();", S, jsStr(rp)), fmt.Sprintf("(OReplS %s %s)", C, cUnits(rp))})
 		case 8:
-			ops = append(ops, opv{"out.push(r.source, r.global, r.ignoreCase, r.multiline, String(r)); li();", "OProps"})
+			ops = append(ops, opv{"out.push(r.source, r.global, r.ignoreCase, r.multiline, String(r), tail); li();", "OProps"})
 		case 9:
 			mode := g.r.Intn(10)
 			ng2, ni2, nm2 := g.r.Intn(2) == 0, g.r.Intn(3) == 0, g.r.Intn(3) == 0
@@ -973,7 +976,8 @@ func (g *gen) runSeq(c seqCase, bucket string) {
 	default:
 		ctor = fmt.Sprintf("new RegExp(%s, %q)", JSStr(Units(pat)), fl)
 	}
-	fmt.Fprintf(&src, "function mk(){ return %s; }\n", ctor)
+	// a second literal on the same line: its text must not be swallowed by the first one
+	fmt.Fprintf(&src, "function mk(){ return %s; } var tail = /\\]\\/[/]/.source;\n", ctor)
 	fmt.Fprintf(&src, "function mkc(){ return function(){ return %s; }; }\n", ctor)
 	fmt.Fprintf(&src, "function mkl(){ var cs=[]; for(var q=0;q<2;q++){ var t=%s; cs.push([t, t.hasOwnProperty('xq'), t.lastIndex]); t.xq=1; t.lastIndex=2; } cs[1][0].lastIndex=0; return cs; }\n", ctor)
 	fmt.Fprintf(&src, "var ctorText=%s;\n", JSStr(Units("("+ctor+")")))
@@ -1040,7 +1044,7 @@ func opTest(s string) opv {
 	return opv{fmt.Sprintf("out.push(r.test(%s)); li(); leg.push(RegExp.$1,RegExp.$2,RegExp.$3,RegExp.$4,RegExp.$5,RegExp.$6,RegExp.$7,RegExp.$8,RegExp.$9,RegExp.$_,RegExp.input);", jsStr([]rune(s))), "(OTest " + Cstr(s) + ")"}
 }
 func opMatchG(s string) opv {
-	return opv{fmt.Sprintf("var m=%s.match(r); pa(m); li();", jsStr([]rune(s))), "(OMatch " + Cstr(s) + ")"}
+	return opv{fmt.Sprintf("var m=%s.match(r); pa(m); if(m&&!r.global){out.push(m.index,m.input);} li();", jsStr([]rune(s))), "(OMatch " + Cstr(s) + ")"}
 }
 func opSearch(s string) opv {
 	return opv{fmt.Sprintf("out.push(%s.search(r)); li();", jsStr([]rune(s))), "(OSearch " + Cstr(s) + ")"}
@@ -1080,12 +1084,46 @@ func (g *gen) pinned() {
 		gs = append(gs, grp(lit(ch)))
 	}
 	g.runSeq(seqCase{r: seqOf(gs...), ops: []opv{opReplS("abcdefghijkl", "[$10][$11][$01]")}}, "pinned")
+	// literal scanning (7.8.5): classes with raw [ and / members, negated, escaped ] and [,
+	// two classes in a row, a group around the class, every flag; the same trees through the
+	// constructor; each used by exec / split / replace / match and followed by a second literal
+	cl := func(neg bool, ms ...rune) *node {
+		its := make([]item, len(ms))
+		for i, m := range ms {
+			switch m {
+			case ']', '\\', '-', '^':
+				its[i] = item{kind: "one", lo: chs{kind: "idesc", c: m}}
+			default:
+				its[i] = item{kind: "one", lo: chs{kind: "lit", c: m}}
+			}
+		}
+		return &node{op: "class", neg: neg, items: its}
+	}
+	rng := &node{op: "class", items: []item{{kind: "range", lo: chs{kind: "lit", c: '['}, hi: chs{kind: "lit", c: 'a'}}}}
+	litTrees := []*node{
+		cl(false, '['), cl(true, '['), cl(false, '[', 'a'), cl(false, 'a', '['), cl(false, '[', '['),
+		cl(false, '[', '/'), cl(false, '/', '['), cl(false, '/'), cl(false, '[', ']'), cl(false, ']', '['),
+		cl(false, '\\', '['), cl(true, '[', '/', ']'), rng,
+		seqOf(cl(false, '['), cl(false, '[')), seqOf(cl(false, '['), lit('a'), cl(false, '/')),
+		seqOf(lit('x'), grp(qn(cl(false, '[', 'a'), "plus", true))),
+		seqOf(cl(false, '['), &node{op: "ch", ch: chs{kind: "idesc", c: '/'}}, cl(false, '/', '[')),
+		qn(cl(false, '[', 'b'), "star", false),
+	}
+	for k, t := range litTrees {
+		subj := "x[a[/]b[[a"
+		ops := []opv{{"out.push(r.source, r.global, r.ignoreCase, r.multiline, String(r), tail); li();", "OProps"},
+			opExec(subj), opSplit(subj), opReplS(subj, "<$&>"), opMatchG(subj)}
+		g.runSeq(seqCase{r: t, g: k%2 == 0, i: k%3 == 0, m: k%5 == 0, literal: true, mode: k % 2, ops: ops}, "litscan")
+		g.runSeq(seqCase{r: t, g: k%2 == 0, literal: false, ops: ops[:2]}, "litscan")
+	}
 	// constructor outcomes
 	g.bad(1, "(", "")
 	g.bad(3, "a", "x")
 	g.bad(4, "[]", "")
+	g.bad(4, "[[:alpha:]", "")
 	g.bad(5, "^*", "")
 	g.bad(5, "(?i)a", "")
+	g.bad(5, "[[:alpha:]]", "")
 	g.bad(6, "(a)(b)(c)(d)(e)(f)(g)(h)(i)(j)\\10", "")
 }
 
@@ -1166,7 +1204,8 @@ func (g *gen) badCase() {
 	case 2: // flags
 		g.bad(3, p1, Pick(g.r, []string{"x", "gx", "y", "G", "gg", "ii", "mm", "gig", "s", "u", "gimx", "g ", "mim"}))
 	case 3:
-		g.bad(4, Pick(g.r, []string{"[]", "[^]", g.simpleLits() + "[]", "[^]" + g.simpleLits(), "(" + "[]" + ")", "a|[]"}), "")
+		g.bad(4, Pick(g.r, []string{"[]", "[^]", g.simpleLits() + "[]", "[^]" + g.simpleLits(), "(" + "[]" + ")", "a|[]",
+			"[[:alpha:]", "[a[:digit:]", "[[:a:]", "[^[:x:]"}), "")
 	case 5: // \1d with at least that many groups: a back-reference in ES5, an octal escape for otto
 		n := 10 + g.r.Intn(8)
 		pat := ""
@@ -1175,7 +1214,8 @@ func (g *gen) badCase() {
 		}
 		g.bad(6, pat+p1+fmt.Sprintf("\\%d", n), "")
 	default:
-		g.bad(5, Pick(g.r, []string{"^*", "$+", "\\b+", "\\B?", "a|^{2}", "(?:$)?$*", "(?i)a", "(?s).", "(?P<n>a)", "(?<n>a)", "(?m)^a", "(?U)a+", "(?i:a)", "(?-i)a"}), "")
+		g.bad(5, Pick(g.r, []string{"^*", "$+", "\\b+", "\\B?", "a|^{2}", "(?:$)?$*", "(?i)a", "(?s).", "(?P<n>a)", "(?<n>a)", "(?m)^a", "(?U)a+", "(?i:a)", "(?-i)a",
+			"[[:alpha:]]", "[[:digit:]x]", "a[^[:space:]]", "[[:word:]]+"}), "")
 	}
 }
 
